@@ -33,4 +33,5 @@ def run(ctx, rep):
     optargs.rule_integer_argument_consulted(ctx, rep, "C16-R9", lambda f: _in_family(f.qual), "the String methods", floor=3)
     textparse.rule_nan_position_means_end(ctx, rep, "C16-R10")
     textparse.rule_raw_number_subscripts(ctx, rep, "C16-R11", booleans=True)
+    optargs.rule_argument_checked_first(ctx, rep, "C16-R12", ("_make_string_method",))
     rep.undecided += ["the method result tables over the argument grid (values, not shape): a runtime differential, outside static analysis"]
